@@ -14,11 +14,16 @@ plus those of the equality used.
   C09G_subframe_bound / C09G_frame_bound   the generated `encode_subframe` / `encode_frame`: at most `8 + n * bps` bits per
                                   sub-frame / `channels * (8 + n * bps)` per frame, for every oracle log
   C07G_subframe_total             the generated `encode_subframe` never returns `none` under C07Total's hypotheses
+  C13G_encoder                    C13_encoder (optimality of every EMITTED residual, unconditional) for the generated `encode_subframe`
+  C07G_frame_total                C07_frame_total for the generated `encode_frame` (it returns; its image is the model's frame)
+  C09G_stream_bound               C09_stream for the stream the generated driver returns on the generated `MemSource`
 -/
 import FlacVerif.Theorems.C13Gen
 import FlacVerif.Theorems.C13Enc
 import FlacVerif.Theorems.C09Gen
 import FlacVerif.Theorems.C07Total
+import FlacVerif.Theorems.C09Stream
+import FlacVerif.Theorems.C03GenMem
 
 namespace FlacVerif.C13GenProp
 open FlacVerif FlacVerif.Gen.Rice FlacVerif.C13Gen RiceSearch
@@ -164,7 +169,7 @@ theorem C07G_subframe_total (s1 : List (List Int)) (s2 : List Int) (c : Gen.SubF
 /-- **C09 (frame), generated**: for every oracle log, the sub-frames of the frame the generated `encode_frame` returns (read
 through `C08Gen.frameOfGen`, after the frame-number assignment) take at most `channels * (8 + n * bps)` bits, and every one
 of them has a size. -/
-theorem C09G_frame_bound (s1 : List (List Int)) (s2 : List Int) (s3 : FrameBuf) (c : Gen.Encoder) (fb : FrameBuf)
+theorem C09G_frame_bound (s1 : List (List Int)) (s2 : List Int) (s3 : Gen.Coding.FrameBuf) (c : Gen.Encoder) (fb : Gen.Coding.FrameBuf)
     (info : StreamInfo) (number : Nat) (log log' : List OEvent) (g : Gen.Writer.Frame)
     (hst : StereoBuf s3) (hfb : FbOk fb info.channels) (hn : 1 ≤ fb.filled_size ∧ fb.filled_size < 2 ^ 16)
     (hch : 1 ≤ info.channels ∧ info.channels ≤ 8) (hb : 1 ≤ info.bps ∧ info.bps ≤ 24)
@@ -184,6 +189,103 @@ theorem C09G_frame_bound (s1 : List (List Int)) (s2 : List Int) (s3 : FrameBuf) 
   have := FlacVerif.C09.C09_frame (subCfgOf c.subframe_coding) (stereoCfgOf c.stereo_coding) (chansOf fb info.channels)
     info.bps info.rate number fb.filled_size log log' _ hn.1 hlen heq.symm
   simpa [chansOf] using this
+
+/-- **C13 (emitted residuals), generated**: `C13_encoder` for the sub-frame the generated `encode_subframe` returns - its
+residual is `Residual.ofErrors` of an error signal with the emitted order and parameters, a choice of the search space, and NO
+choice of the space has a smaller coded size (no saturation side condition), for every oracle log satisfying `OEvent.Ok`. -/
+theorem C13G_encoder (s1 : List (List Int)) (s2 : List Int) (c : Gen.SubFrameCoding) (xs : List Int) (bps : Nat)
+    (log log' : List OEvent) (s : SubFrame)
+    (hn : 1 ≤ xs.length) (hlen : xs.length < 2 ^ 16) (hb : 1 ≤ bps ∧ bps ≤ 25)
+    (hx : ∀ x ∈ xs, SubFrame.inRange bps x = true) (hmax : c.prc.max_parameter ≤ 14)
+    (hmo : c.fixed.max_order + 1 < 2 ^ 64) (hest : ∀ o b, OEvent.est o b ∈ log → b < 2 ^ 63)
+    (hlog : ∀ e ∈ log, e.Ok)
+    (h : encode_subframe s1 s2 c xs bps log = some (s, log')) :
+    match s with
+    | .fixed warm res _ | .lpc warm _ _ _ res _ =>
+        ∃ errors : List Int, errors.length = xs.length ∧
+          (∀ e ∈ errors, -(2 ^ 31 : Int) < e ∧ e < (2 ^ 31 : Int)) ∧
+          res = Residual.ofErrors errors warm.length res.order res.params ∧
+          orderOk xs.length warm.length res.order = true ∧ res.params.length = 2 ^ res.order ∧
+          (∀ p ∈ res.params, p ≤ c.prc.max_parameter) ∧
+          ∀ o ps, orderOk xs.length warm.length o = true → ps.length = 2 ^ o → (∀ p ∈ ps, p ≤ c.prc.max_parameter) →
+            choiceCost (errors.map fold) warm.length res.order res.params ≤
+              choiceCost (errors.map fold) warm.length o ps
+    | _ => True := by
+  rw [C09G_encode_subframe_valid s1 s2 c xs bps log hn hlen hb hx hmax hmo hest] at h
+  have := C13_encoder (subCfgOf c) xs bps log log' s hn hlen hb hx hmax hlog h
+  cases s with
+  | constant _ _ _ => trivial
+  | verbatim _ _ => trivial
+  | fixed warm res b => exact this
+  | lpc warm coefs shift precision res b => exact this
+
+/-- **C07 (totality, frame), generated**: under C07Total's hypotheses the generated `encode_frame` returns - no panic site is
+reached -, consumes exactly `frameTake` oracle events, and its frame (after the frame-number assignment) is the model's. -/
+theorem C07G_frame_total (s1 : List (List Int)) (s2 : List Int) (s3 : Gen.Coding.FrameBuf) (c : Gen.Encoder) (fb : Gen.Coding.FrameBuf)
+    (info : StreamInfo) (number : Nat) (log : List OEvent)
+    (hst : StereoBuf s3) (hfb : FbOk fb info.channels) (hn : 1 ≤ fb.filled_size ∧ fb.filled_size < 2 ^ 16)
+    (hch : 1 ≤ info.channels ∧ info.channels ≤ 8) (hb : 1 ≤ info.bps ∧ info.bps ≤ 24)
+    (hx : ∀ ch, ch < info.channels → ∀ x ∈ chanOf fb ch, SubFrame.inRange info.bps x = true)
+    (hmax : c.subframe_coding.prc.max_parameter ≤ 14) (hmo : c.subframe_coding.fixed.max_order + 1 < 2 ^ 64)
+    (hrate : info.rate < 2 ^ 32) (hnum : number < 2 ^ 32) (hfit : LogFits log)
+    (hlog : ∀ e ∈ log, e.Ok) (hshape : FrameLogOk (subCfgOf c.subframe_coding) (chansOf fb info.channels) log) :
+    ∃ g, encode_frame s1 s2 s3 c fb 0 info log
+        = some (g, log.drop (frameTake (subCfgOf c.subframe_coding) (chansOf fb info.channels))) ∧
+      encodeFrame (subCfgOf c.subframe_coding) (stereoCfgOf c.stereo_coding) (chansOf fb info.channels) info.bps info.rate number log
+        = some (C08Gen.frameOfGen (withNumber g number), log.drop (frameTake (subCfgOf c.subframe_coding) (chansOf fb info.channels))) := by
+  have heq := C09G_encode_frame s1 s2 s3 c fb info number log hst hfb hn hch hb hx hmax hmo hrate hnum hfit
+  have hclen : (chansOf fb info.channels).length = info.channels := by simp [chansOf]
+  have hlen : ∀ ch ∈ chansOf fb info.channels, ch.length = fb.filled_size := by
+    intro ch hc
+    simp only [chansOf, List.mem_map, List.mem_range] at hc
+    obtain ⟨k, hk, rfl⟩ := hc
+    exact chanOf_length fb info.channels k hfb hk
+  have hxs : ∀ ch ∈ chansOf fb info.channels, ∀ x ∈ ch, SubFrame.inRange info.bps x = true := by
+    intro ch hc
+    simp only [chansOf, List.mem_map, List.mem_range] at hc
+    obtain ⟨k, hk, rfl⟩ := hc
+    exact hx k hk
+  obtain ⟨f, hf⟩ := C07_frame_total (subCfgOf c.subframe_coding) (stereoCfgOf c.stereo_coding) (chansOf fb info.channels)
+    info.bps info.rate number fb.filled_size log (by omega) hlen hn hb hxs hlog hshape
+  rw [hf] at heq
+  cases hg : encode_frame s1 s2 s3 c fb 0 info log with
+  | none => rw [hg] at heq; simp at heq
+  | some r =>
+    rw [hg] at heq
+    simp only [Option.map_some, Option.some.injEq, Prod.mk.injEq] at heq
+    obtain ⟨g, l'⟩ := r
+    simp only at heq
+    refine ⟨g, by rw [heq.2], ?_⟩
+    rw [hf, heq.1]
+
+/-- **C09 (stream), generated**: the stream the GENERATED driver `encode_with_fixed_block_size` returns on the GENERATED `MemSource`
+(single-threaded configuration) writes at most 42 bytes plus, per block, its own frame header and verbatim sub-frames -
+`C09_stream` through `C03G_driver_mem_stream` (`streamImage G` is the generated stream read as the model's). -/
+theorem C09G_stream_bound (featPar : Bool)
+    (par : Gen.Encoder → Gen.Source.MemSource → Nat → FlacVerif.Gen.Coding.M (Option Gen.Writer.Stream))
+    (md5f : List Nat → List Nat) (s1 : Nat → List (List Int)) (s2 : Nat → List Int) (s3 : Nat → Gen.Coding.FrameBuf)
+    (c : Gen.Encoder) (chans : List (List Int)) (ch bps rate bs total : Nat) (log logf : List OEvent) (i0 : StreamInfo)
+    (m0 : FlacVerif.FrameBuf) (s : Stream)
+    (hmt : c.multithread = false)
+    (hnew : FlacVerif.StreamInfo.new rate ch bps = some i0) (hfb : FlacVerif.FrameBuf.withSize ch bs = some m0)
+    (hst : ∀ n, C09Gen.StereoBuf (s3 n)) (hb : 1 ≤ bps ∧ bps ≤ 24)
+    (hmax : c.subframe_coding.prc.max_parameter ≤ 14) (hmo : c.subframe_coding.fixed.max_order + 1 < 2 ^ 64)
+    (hcl : chans.length = ch) (hch : 1 ≤ ch ∧ ch ≤ 8) (hlen : ∀ x ∈ chans, x.length = total)
+    (hxr : ∀ x ∈ chans, ∀ v ∈ x, SubFrame.inRange bps v = true) (htot : total < 2 ^ 36) (hbs : 1 ≤ bs ∧ bs < 2 ^ 16)
+    (hs : encodeStream md5f (Total.subCfgOf c.subframe_coding) (Total.stereoCfgOf c.stereo_coding) bs chans bps rate log = some (s, logf))
+    (hlog : C09Gen.LogFits log) (hlogok : ∀ e ∈ log, e.Ok) (hnb : (blocksOf bs chans).length < 2 ^ 31)
+    (hmd : ∀ l, (md5f l).length = 16) (fuel : Nat) (hfuel : (blocksOf bs chans).length < fuel) :
+    ∃ G sb, FlacVerif.Gen.Driver.encode_with_fixed_block_size featPar FlacVerif.C03Gen.memOps par md5f s1 s2 s3 fuel c
+        (Gen.Source.MemSource.from_samples (Rfc.interleave chans) ch bps rate) bs log = some (some G, logf) ∧
+      (FlacVerif.C03Gen.streamImage G).bits rfcCrc8 rfcCrc16 = some sb ∧
+      (FlacVerif.C03Gen.streamImage G).count = some sb.length ∧
+      sb.length ≤ 8 * 42 + (((blocksOf bs chans).zipIdx).map fun (b, i) =>
+        8 * ((frameHeaderBits (b.headD []).length rate i + chans.length * (8 + (b.headD []).length * bps) + 7) / 8 + 2)).sum := by
+  obtain ⟨G, hG, himg⟩ := FlacVerif.C03GenMem.C03G_driver_mem_stream featPar par md5f s1 s2 s3 c chans ch bps rate bs total log logf
+    i0 m0 s hmt hnew hfb hst hb hmax hmo hcl hlen hxr (by omega) hs hlog hlogok hnb hmd fuel hfuel
+  obtain ⟨sb, h1, h2, h3⟩ := C09_stream md5f (Total.subCfgOf c.subframe_coding) (Total.stereoCfgOf c.stereo_coding) bs chans bps rate
+    log logf s total hmd (by rw [hcl]; exact hch) hlen htot hbs hb hxr hmax hlogok hs
+  exact ⟨G, sb, hG, by rw [himg]; exact h1, by rw [himg]; exact h2, h3⟩
 
 /-! ### the hypotheses are satisfiable (the witnesses of C13Gen / C09Gen) -/
 
@@ -230,5 +332,18 @@ example (g : Gen.Writer.Frame) (l' : List OEvent) (h : encode_frame [] [] msStal
     FlacVerif.C09.subTotal (C08Gen.frameOfGen (withNumber g 7)) ≤ 2 * verbatimBits 64 16 :=
   (C09G_frame_bound [] [] msStale cfgEnc fb2 info2 7 log4 l' g msStale_ok fb2_valid.1 fb2_valid.2.1 (by decide) (by decide)
     fb2_valid.2.2 (by decide) (by decide) (by decide) (by decide) log4_fits h).1
+
+/-- `C13G_encoder`: the same witnesses; the log `log64` satisfies `OEvent.Ok` -/
+example (s : SubFrame) (l' : List OEvent) (h : encode_subframe [] [1, 2, 3] cfgDefault sig64 16 log64 = some (s, l')) :
+    match s with
+    | .fixed warm res _ | .lpc warm _ _ _ res _ => res.params.length = 2 ^ res.order
+    | _ => True := by
+  have := C13G_encoder _ _ cfgDefault sig64 16 log64 l' s sig64_valid.1.1 sig64_valid.1.2 (by decide) sig64_valid.2
+    (by decide) (by decide) (by intro o b h; simp [log64] at h; omega) (by decide) h
+  cases s with
+  | constant _ _ _ => trivial
+  | verbatim _ _ => trivial
+  | fixed warm res b => obtain ⟨_, _, _, _, _, hl, _⟩ := this; exact hl
+  | lpc warm coefs shift precision res b => obtain ⟨_, _, _, _, _, hl, _⟩ := this; exact hl
 
 end FlacVerif.C13GenProp
